@@ -64,25 +64,39 @@ pub fn mem_area_type(x: u32, y: u32) -> Value {
 }
 
 #[repr(C, align(8))]
-struct ElfImage([u8; 88]);
+struct ElfImage([u8; 176]);
 
-/// Classification of a raw ELF section type: a one-entry ELF32 section table is loaded and iterated.
-/// Returns the discriminant of section_type() of the yielded section, or None when the entry is skipped as unused.
+/// Classification of a raw ELF section type: a two-entry section table (first entry an ordinary program
+/// section, second entry of the raw type) is loaded and iterated, once with 40-byte (ELF32) and once with
+/// 64-byte (ELF64) entries. Returns the discriminant of section_type() of the second section, or None when
+/// that entry is skipped as unused. Both layouts must agree.
 pub fn elf_class(raw: u32) -> Option<u32> {
-    let mut img = ElfImage([0u8; 88]);
+    let a = elf_class_with(raw, 40);
+    let b = elf_class_with(raw, 64);
+    assert_eq!(a, b, "ELF32 and ELF64 tables classify the same raw type differently");
+    a
+}
+
+fn elf_class_with(raw: u32, es: usize) -> Option<u32> {
+    let mut img = ElfImage([0u8; 176]);
     let b = &mut img.0;
-    b[0..4].copy_from_slice(&88u32.to_le_bytes());
+    let tag = 20 + 2 * es; // 100 or 148
+    let total = 8 + (tag + 7) / 8 * 8 + 8; // 120 or 168
+    b[0..4].copy_from_slice(&(total as u32).to_le_bytes());
     b[8..12].copy_from_slice(&9u32.to_le_bytes());
-    b[12..16].copy_from_slice(&60u32.to_le_bytes()); // 20 + 40
-    b[16..20].copy_from_slice(&1u32.to_le_bytes()); // one section
-    b[20..24].copy_from_slice(&40u32.to_le_bytes()); // ELF32 entries
+    b[12..16].copy_from_slice(&(tag as u32).to_le_bytes());
+    b[16..20].copy_from_slice(&2u32.to_le_bytes()); // two sections
+    b[20..24].copy_from_slice(&(es as u32).to_le_bytes());
     b[24..28].copy_from_slice(&0u32.to_le_bytes()); // shndx
-    b[28 + 4..28 + 8].copy_from_slice(&raw.to_le_bytes());
-    b[80..84].copy_from_slice(&0u32.to_le_bytes());
-    b[84..88].copy_from_slice(&8u32.to_le_bytes());
+    b[28 + 4..28 + 8].copy_from_slice(&1u32.to_le_bytes()); // first entry: a program section
+    b[28 + es + 4..28 + es + 8].copy_from_slice(&raw.to_le_bytes());
+    b[total - 8..total - 4].copy_from_slice(&0u32.to_le_bytes());
+    b[total - 4..total].copy_from_slice(&8u32.to_le_bytes());
     let bi = unsafe { multiboot2::BootInformation::load(b.as_ptr().cast()) }.expect("static ELF image loads");
     let tag = bi.elf_sections_tag().expect("ELF tag present");
     let mut it = tag.sections();
+    let first = it.next().expect("first section");
+    assert_eq!(first.section_type_raw(), 1);
     it.next().map(|s| {
         assert_eq!(s.section_type_raw(), raw);
         s.section_type() as u32
